@@ -226,14 +226,35 @@ func c07Derive(m c07Model) (*projgen.Project, string) {
 			}
 		}
 	}
-	tagAt := func(k int) string {
+	// collection-typed sites get the element rules (dive ...), the others the plain ones; both rotate from m.Tag on
+	var plainTags, diveTags []string
+	for _, tg := range c07Tags {
+		if strings.Contains(tg, "dive") {
+			diveTags = append(diveTags, tg)
+		} else {
+			plainTags = append(plainTags, tg)
+		}
+	}
+	tagAt := func(k int, typ projgen.TypeRef) string {
 		base := 0
 		for i, tg := range c07Tags {
 			if tg == m.Tag {
 				base = i
 			}
 		}
-		return c07Tags[(base+k)%len(c07Tags)]
+		hasSlice := false
+		for t := typ; t.Kind == "ptr" || t.Kind == "slice"; t = *t.Elem {
+			if t.Kind == "slice" {
+				hasSlice = true
+			}
+			if t.Elem == nil {
+				break
+			}
+		}
+		if hasSlice {
+			return diveTags[(base+k)%len(diveTags)]
+		}
+		return plainTags[(base+k)%len(plainTags)]
 	}
 	addTag := func(s site, tag string) {
 		f := &s.d.Fields[s.i]
@@ -246,7 +267,7 @@ func c07Derive(m c07Model) (*projgen.Project, string) {
 	}
 	if m.TagAll {
 		for k, s := range sites {
-			addTag(s, tagAt(k))
+			addTag(s, tagAt(k, s.d.Fields[s.i].Type))
 		}
 		k := len(sites)
 		for _, c := range p.Controllers {
@@ -256,7 +277,7 @@ func c07Derive(m c07Model) (*projgen.Project, string) {
 					if prm.In == "body" || prm.In == "context" || namedThrough(prm.Type) == nil || mt.RawSig != "" || mt.RawDoc != nil {
 						continue
 					}
-					tag := tagAt(k)
+					tag := tagAt(k, prm.Type)
 					k++
 					if prm.Validator == "" {
 						prm.Validator = tag
